@@ -66,6 +66,18 @@ func HangCPULimit(def time.Duration) time.Duration {
 	return def
 }
 
+// memLimit is the heap+stack limit per process in bytes (VERIF_MEM_LIMIT_MB
+// overrides the default of 3 GiB).
+func memLimit() uint64 {
+	if s := os.Getenv("VERIF_MEM_LIMIT_MB"); s != "" {
+		var n uint64
+		if _, err := fmt.Sscanf(s, "%d", &n); err == nil && n > 0 {
+			return n << 20
+		}
+	}
+	return 3 << 30
+}
+
 var geomFrame = regexp.MustCompile(`github\.com/twpayne/go-geom[^\s(]*`)
 
 // StartWatchdog starts the watchdog goroutine. When the scenario in flight has
@@ -81,6 +93,27 @@ func StartWatchdog(hungFile string, limit time.Duration) {
 		cpu0 := cpuNow()
 		for {
 			time.Sleep(250 * time.Millisecond)
+			if rawp := wd.raw.Load(); rawp != nil {
+				// memory: a scenario whose execution holds more than the limit
+				// (default 3 GiB; scenarios need kilobytes to a few megabytes) is
+				// stopped before it takes the machine down, and nominated like a
+				// hung one (signature memory-blow-up)
+				var ms runtime.MemStats
+				runtime.ReadMemStats(&ms)
+				if ms.HeapInuse+ms.StackInuse > memLimit() {
+					buf := make([]byte, 1<<16)
+					buf = buf[:runtime.Stack(buf, true)]
+					sig := "memory-blow-up"
+					if m := geomFrame.FindString(string(buf)); m != "" {
+						sig += ":" + strings.TrimPrefix(m, "github.com/twpayne/")
+					}
+					if hungFile != "" {
+						_ = os.WriteFile(hungFile, *rawp, 0o644)
+					}
+					fmt.Fprintf(os.Stderr, "HUNG %s\nthe scenario in flight holds %d MiB of heap and stack (limit %d MiB)\n%s\n", sig, (ms.HeapInuse+ms.StackInuse)>>20, memLimit()>>20, firstLines(string(buf), 40))
+					os.Exit(ExitHung)
+				}
+			}
 			cur := wd.run.Load()
 			if cur != last {
 				last, cpu0 = cur, cpuNow()
